@@ -184,6 +184,278 @@ theorem agree_core (env : Env) (base : Url) (u : Str) (sp : Split) (hc : Clean u
       (Or.inl hn) hN' hR'', ← hsch]
     exact authorityParts_plain _ _ _ h0 h1 h2
 
+/-! ## small facts about characters -/
+
+theorem not_mem_lower (x : Char) (hx : ¬ (97 ≤ x.toNat ∧ x.toNat ≤ 122)) (s : Str) (h : x ∉ s) : x ∉ s.map asciiLower := by
+  intro hm
+  simp only [List.mem_map] at hm
+  obtain ⟨c, hc, heq⟩ := hm
+  have hne : c ≠ x := by rintro rfl; exact h hc
+  exact asciiLower_ne x hx hne heq
+
+theorem mem_lower_of_mem (x : Char) (hx : asciiLower x = x) (s : Str) (h : x ∈ s) : x ∈ s.map asciiLower := by
+  simp only [List.mem_map]
+  exact ⟨x, h, hx⟩
+
+theorem not_authEnd_lower {c : Char} (h : isAuthEnd c = false) : isAuthEnd (asciiLower c) = false := by
+  simp only [isAuthEnd, Bool.or_eq_false_iff, beq_eq_false_iff_ne, ne_eq] at h ⊢
+  obtain ⟨⟨⟨a, b⟩, d⟩, e⟩ := h
+  exact ⟨⟨⟨asciiLower_ne '/' (by decide) a, asciiLower_ne '?' (by decide) b⟩, asciiLower_ne '#' (by decide) d⟩,
+    asciiLower_ne '\\' (by decide) e⟩
+
+theorem clean_map_lower {s : Str} (h : Clean s) : Clean (s.map asciiLower) := by
+  intro c hc
+  simp only [List.mem_map] at hc
+  obtain ⟨x, hx, rfl⟩ := hc
+  obtain ⟨h1, h2⟩ := h x hx
+  refine ⟨?_, asciiLower_ne '\\' (by decide) h2⟩
+  rw [asciiLower_toNat]
+  split <;> omega
+
+theorem digit_props {c : Char} (h : isAsciiDigit c = true) :
+    0x20 < c.toNat ∧ c ≠ '\\' ∧ isAuthEnd c = false ∧ c ≠ '@' ∧ c ≠ '[' ∧ c ≠ ']' ∧ c ≠ ':' := by
+  have hr : 48 ≤ c.toNat ∧ c.toNat ≤ 57 := by simpa [isAsciiDigit] using h
+  have ne : ∀ x : Char, ¬ (48 ≤ x.toNat ∧ x.toNat ≤ 57) → c ≠ x := by
+    intro x hx heq; subst heq; exact hx hr
+  refine ⟨by omega, ne _ (by decide), ?_, ne _ (by decide), ne _ (by decide), ne _ (by decide), ne _ (by decide)⟩
+  simp only [isAuthEnd, Bool.or_eq_false_iff, beq_eq_false_iff_ne, ne_eq]
+  exact ⟨⟨⟨ne _ (by decide), ne _ (by decide)⟩, ne _ (by decide)⟩, ne _ (by decide)⟩
+
+theorem originFrom_congr (scheme H H' P P' : Str) (h1 : hostParse H = hostParse H') (h2 : H.isEmpty = H'.isEmpty)
+    (h3 : portParse scheme P = portParse scheme P') : originFrom scheme H P = originFrom scheme H' P' := by
+  unfold originFrom
+  rw [h1, h2, h3]
+
+theorem sCSS : sColonSlashSlash = [':', '/', '/'] := by decide
+theorem sHttp_eq : sHttp = "http".toList := rfl
+
+/-! ## what the browser makes of the origin string Python compares with the allow-list -/
+
+theorem clean_scheme : ∀ s ∈ Gen.Pkce.returnToSchemes, ∀ c ∈ s, 0x20 < c.toNat ∧ c ≠ '\\' := by decide
+
+theorem parse_scheme_authority (base : Url) (scheme N : Str) (hs : scheme ∈ Gen.Pkce.returnToSchemes) (hcl : Clean N)
+    (hae : ∀ c ∈ N, isAuthEnd c = false) (h0 : '@' ∉ N) (h1 : '[' ∉ N) (h2 : ']' ∉ N) :
+    parse base (scheme ++ sColonSlashSlash ++ N) =
+      hostPort scheme [] [] (N.takeWhile (· != ':')) (afterColon N) [] := by
+  obtain ⟨_, hsp, hnf, _, hlow, hall, hhead⟩ := scheme_facts scheme hs
+  have hclean : Clean (scheme ++ sColonSlashSlash ++ N) := by
+    intro c hc
+    simp only [List.mem_append, sCSS, List.mem_cons, List.not_mem_nil, or_false] at hc
+    rcases hc with (hc | hc) | hc
+    · exact clean_scheme scheme hs c hc
+    · rcases hc with rfl | rfl | rfl <;> decide
+    · exact hcl c hc
+  have hhead' : ∃ c t, scheme = c :: t ∧ isAsciiAlpha c = true := by
+    cases scheme with
+    | nil => simp at hhead
+    | cons c t => exact ⟨c, t, rfl, hhead⟩
+  have hpre : UrlWhatwg.preprocess (scheme ++ sColonSlashSlash ++ N) = scheme ++ ':' :: '/' :: '/' :: (N ++ []) := by
+    rw [UrlWhatwg.preprocess_clean hclean, sCSS]
+    simp
+  rw [parse_absolute base _ scheme N [] hpre hhead' (fun c hc => List.all_eq_true.1 hall c hc) (by rw [hlow]; exact hsp)
+    (by rw [hlow]; exact hnf) (Or.inr rfl) hae (Or.inl rfl), hlow]
+  exact authorityParts_plain _ _ _ h0 h1 h2
+
+theorem origin_string_parse (base : Url) (scheme hn : Str) (prt : Option Nat) (dflt : Nat)
+    (hs : scheme ∈ Gen.Pkce.returnToSchemes) (hcl : Clean hn) (hae : ∀ c ∈ hn, isAuthEnd c = false)
+    (h0 : '@' ∉ hn) (h1 : '[' ∉ hn) (h2 : ']' ∉ hn) (h3 : ':' ∉ hn) :
+    parse base (originString scheme hn prt dflt) =
+      hostPort scheme [] [] hn (match prt with | none => [] | some p => if p = dflt then [] else decimal p) [] := by
+  have hcolon : ∀ x ∈ hn, (x != ':') = true := by
+    intro x hx
+    simp only [bne_iff_ne, ne_eq]
+    rintro rfl
+    exact h3 hx
+  have plain : parse base (scheme ++ sColonSlashSlash ++ hn) = hostPort scheme [] [] hn [] [] := by
+    rw [parse_scheme_authority base scheme hn hs hcl hae h0 h1 h2, takeWhile_all _ _ hcolon]
+    unfold afterColon partition
+    rw [dropWhile_all _ _ hcolon]
+  unfold originString
+  cases prt with
+  | none => exact plain
+  | some p =>
+    simp only
+    split
+    · exact plain
+    · have hd := decimal_digits p
+      have hN : hn ++ ':' :: decimal p = hn ++ (':' :: decimal p) := rfl
+      have hcl' : Clean (hn ++ ':' :: decimal p) := by
+        intro c hc
+        simp only [List.mem_append, List.mem_cons] at hc
+        rcases hc with hc | rfl | hc
+        · exact hcl c hc
+        · decide
+        · exact ⟨(digit_props (hd c hc)).1, (digit_props (hd c hc)).2.1⟩
+      have hae' : ∀ c ∈ hn ++ ':' :: decimal p, isAuthEnd c = false := by
+        intro c hc
+        simp only [List.mem_append, List.mem_cons] at hc
+        rcases hc with hc | rfl | hc
+        · exact hae c hc
+        · decide
+        · exact (digit_props (hd c hc)).2.2.1
+      have nm : ∀ x : Char, x ∉ hn → x ≠ ':' → (∀ c, isAsciiDigit c = true → c ≠ x) → x ∉ hn ++ ':' :: decimal p := by
+        intro x hx hx2 hx3 hm
+        simp only [List.mem_append, List.mem_cons] at hm
+        rcases hm with hm | hm | hm
+        · exact hx hm
+        · exact hx2 hm
+        · exact hx3 x (hd x hm) rfl
+      have hne : (':' != ':') = false := by decide
+      rw [List.append_assoc]
+      rw [parse_scheme_authority base scheme (hn ++ ':' :: decimal p) hs hcl' hae'
+        (nm '@' h0 (by decide) (fun c hc => (digit_props hc).2.2.2.1))
+        (nm '[' h1 (by decide) (fun c hc => (digit_props hc).2.2.2.2.1))
+        (nm ']' h2 (by decide) (fun c hc => (digit_props hc).2.2.2.2.2.1))]
+      rw [takeWhile_append_stop _ _ _ _ hcolon hne]
+      unfold afterColon partition
+      rw [dropWhile_append_stop _ _ _ _ hcolon hne]
+
+/-! ## the return-to theorem -/
+
+/-- the browser's port (null = default) for Python's `.port` value -/
+def wport (scheme : Str) (prt : Option Nat) : Option Nat :=
+  match prt with
+  | none => none
+  | some n => if UrlWhatwg.defaultPort scheme = some n then none else some n
+
+theorem portParse_of_py (scheme P : Str) (prt : Option Nat) (hPd : P.all isAsciiDigit = true)
+    (hPcase : (P = [] ∧ prt = none) ∨ (P ≠ [] ∧ decimalVal P ≤ 65535 ∧ prt = some (decimalVal P))) :
+    portParse scheme P = some (wport scheme prt) := by
+  rcases hPcase with ⟨rfl, rfl⟩ | ⟨hne, hle, rfl⟩
+  · exact portParse_nil scheme
+  · exact portParse_digits scheme P hPd hne hle
+
+theorem return_to_core (env : Env) (base : Url) (u : Str) (allow : List Str) (r : Str)
+    (hallow : AllowOK base allow) (h : validateReturnToRepaired env u allow = .ok r) (hr : r ≠ []) (t : Str) :
+    SafeExternal base allow (redirectTarget r t) := by
+  obtain ⟨rfl, hune, hsafe, sp, prt, hsplit, hport, hsch, hnet, hforb, hcase⟩ := repaired_accepts h hr
+  obtain ⟨hc, hascii⟩ := clean_of_safe hsafe
+  have hmem : sp.scheme ∈ Gen.Pkce.returnToSchemes := by simpa using hsch
+  obtain ⟨hdp, hsp, hnf, hsome, hlow, hall, hhead⟩ := scheme_facts _ hmem
+  have hnot : ∀ x, Gen.Pkce.netlocForbidden.contains x = true → x ∉ sp.netloc := by
+    intro x hx hm
+    rw [List.any_eq_false] at hforb
+    exact hforb x hm hx
+  have h0 := hnot '@' forbidden_facts.1
+  have h1 := hnot '[' forbidden_facts.2.1
+  have h2 := hnot ']' forbidden_facts.2.2
+  obtain ⟨R, hparse⟩ := agree_core env base r sp hc hsplit hsp hnf hnet h0 h1 h2 (separator r :: t) (Or.inr ⟨t, rfl⟩)
+  have hs : sp.scheme ≠ [] := by intro h; rw [h] at hsp; revert hsp; decide
+  obtain ⟨S, R0, hu, _, _, _, hN, _⟩ := urlsplit_shape hc hsplit hs hnet
+  have hNsub : ∀ c ∈ sp.netloc, c ∈ r := by intro c hcm; rw [hu]; simp [hcm]
+  have hHsub : ∀ c ∈ sp.netloc.takeWhile (· != ':'), c ∈ sp.netloc := fun c hcm => mem_of_mem_takeWhile _ _ c hcm
+  have hHascii : ∀ c ∈ sp.netloc.takeWhile (· != ':'), isAscii c = true := fun c hcm => hascii c (hNsub c (hHsub c hcm))
+  have hHclean : Clean (sp.netloc.takeWhile (· != ':')) := fun c hcm => hc c (hNsub c (hHsub c hcm))
+  have hHae : ∀ c ∈ sp.netloc.takeWhile (· != ':'), isAuthEnd c = false :=
+    fun c hcm => not_authEnd (hN c (hHsub c hcm)) (hHclean c hcm).2
+  have hH0 : '@' ∉ sp.netloc.takeWhile (· != ':') := fun hm => h0 (hHsub _ hm)
+  have hH1 : '[' ∉ sp.netloc.takeWhile (· != ':') := fun hm => h1 (hHsub _ hm)
+  have hH2 : ']' ∉ sp.netloc.takeWhile (· != ':') := fun hm => h2 (hHsub _ hm)
+  have hH3 : ':' ∉ sp.netloc.takeWhile (· != ':') := by
+    intro hm
+    have := mem_takeWhile _ _ _ hm
+    simp at this
+  obtain ⟨hPd, hPcase⟩ := port_plain h0 h1 hport
+  have hpp := portParse_of_py sp.scheme _ prt hPd hPcase
+  -- it suffices to find the origin the two buffers produce
+  suffices hsuff : ∃ o, originFrom sp.scheme (sp.netloc.takeWhile (· != ':')) (afterColon sp.netloc) = some o ∧
+      (o.isLoopbackHttp = true ∨ ∃ a ∈ allow, ∃ uo, parse base a = .ok uo ∧ originOf uo = o) by
+    obtain ⟨o, ho, hos⟩ := hsuff
+    obtain ⟨url, hurl, horigin⟩ := (hostPort_origin sp.scheme [] [] _ _ R o).1 ho
+    refine ⟨url, ?_, ?_⟩
+    · rw [show redirectTarget r t = r ++ separator r :: t from rfl, hparse]; exact hurl
+    · rw [horigin]; exact hos
+  -- facts about Python's hostname once it is known to contain no `%`
+  have hostfacts : '%' ∉ (hostname sp.netloc).getD [] →
+      (hostname sp.netloc).getD [] = (sp.netloc.takeWhile (· != ':')).map asciiLower ∧
+      hostParse ((hostname sp.netloc).getD []) = hostParse (sp.netloc.takeWhile (· != ':')) := by
+    intro hp
+    have heq := hostname_plain h0 h1 hHascii hp
+    refine ⟨heq, ?_⟩
+    rw [heq]
+    apply hostParse_lower _ _ _ hHascii
+    · intro r' hr'
+      apply hH1
+      rw [hr']; simp
+    · intro hm
+      apply hp
+      rw [heq]
+      exact mem_lower_of_mem '%' (by decide) _ hm
+  rcases hcase with ⟨hloc, hhttp⟩ | ⟨dflt, hdflt, hin⟩
+  · -- loopback
+    obtain ⟨hpct, hne, hloop⟩ := localhost_facts _ (by simpa [isLocalhost] using hloc)
+    obtain ⟨heq, hhp⟩ := hostfacts (by simpa using hpct)
+    have hbr : ((hostname sp.netloc).getD []).contains '[' = false := by
+      rw [Bool.eq_false_iff]
+      intro hcon
+      have : '[' ∈ (hostname sp.netloc).getD [] := by simpa using hcon
+      rw [heq] at this
+      exact not_mem_lower '[' (by decide) _ hH1 this
+    have hl := hloop hbr
+    unfold loopHost at hl
+    rw [hhp] at hl
+    have hHne : (sp.netloc.takeWhile (· != ':')).isEmpty = false := by
+      rw [heq] at hne
+      cases hh : sp.netloc.takeWhile (· != ':') with
+      | nil => rw [hh] at hne; simp at hne
+      | cons => rfl
+    cases hhost : hostParse (sp.netloc.takeWhile (· != ':')) with
+    | failure => rw [hhost] at hl; simp at hl
+    | unsupported => rw [hhost] at hl; simp at hl
+    | ok host =>
+      rw [hhost] at hl
+      simp only at hl
+      refine ⟨⟨sp.scheme, host, (wport sp.scheme prt).getD ((UrlWhatwg.defaultPort sp.scheme).getD 0)⟩, ?_, Or.inl ?_⟩
+      · unfold originFrom
+        rw [hHne, hhost, hpp]
+        simp only [Bool.false_eq_true, if_false]
+      · unfold Origin.isLoopbackHttp
+        simp only [hhttp, sHttp_eq, beq_self_eq_true, Bool.true_and]
+        rw [Bool.or_eq_true] at hl
+        rcases hl with hl | hl
+        · simp [hl]
+        · simp [hl]
+  · -- allow-listed
+    obtain ⟨hpcto, uo, huo⟩ := hallow _ hin
+    have hpct : '%' ∉ (hostname sp.netloc).getD [] := by
+      intro hm
+      apply hpcto
+      unfold originString
+      cases prt with
+      | none => simp [hm]
+      | some p => simp only; split <;> simp [hm]
+    obtain ⟨heq, hhp⟩ := hostfacts hpct
+    have hdflt' : UrlWhatwg.defaultPort sp.scheme = some dflt := by rw [← hdp]; exact hdflt
+    have hop := origin_string_parse base sp.scheme ((hostname sp.netloc).getD []) prt dflt hmem
+      (by rw [heq]; exact clean_map_lower hHclean)
+      (by rw [heq]; intro c hcm; simp only [List.mem_map] at hcm; obtain ⟨x, hx, rfl⟩ := hcm; exact not_authEnd_lower (hHae x hx))
+      (by rw [heq]; exact not_mem_lower '@' (by decide) _ hH0)
+      (by rw [heq]; exact not_mem_lower '[' (by decide) _ hH1)
+      (by rw [heq]; exact not_mem_lower ']' (by decide) _ hH2)
+      (by rw [heq]; exact not_mem_lower ':' (by decide) _ hH3)
+    rw [hop] at huo
+    have ho := (hostPort_origin sp.scheme [] [] _ _ [] (originOf uo)).2 ⟨uo, huo, rfl⟩
+    refine ⟨originOf uo, ?_, Or.inr ⟨_, hin, uo, by rw [hop]; exact huo, rfl⟩⟩
+    rw [← ho]
+    apply originFrom_congr
+    · exact hhp.symm
+    · rw [heq]; cases sp.netloc.takeWhile (· != ':') <;> rfl
+    · rw [hpp]
+      cases prt with
+      | none => exact (portParse_nil _).symm
+      | some n =>
+        simp only [wport]
+        by_cases hn : n = dflt
+        · subst hn
+          rw [if_pos hdflt', if_pos rfl, portParse_nil]
+        · rw [if_neg hn]
+          have hle : n ≤ 65535 := by
+            rcases hPcase with ⟨_, h⟩ | ⟨_, hle, h⟩
+            · cases h
+            · simp only [Option.some.injEq] at h; rw [h]; exact hle
+          rw [portParse_digits _ _ (List.all_eq_true.2 (decimal_digits n)) (decimal_ne_nil n) (by rw [decimalVal_decimal]; exact hle),
+            decimalVal_decimal]
+
 end Aux
 
 end VgiVerif.C37
